@@ -106,6 +106,7 @@ func Reset() {
 	S.Trace = nil
 	S.OnPanic = nil
 	S.mu.Unlock()
+	LockYield = false
 }
 
 // Deactivate turns all seams into pass-throughs (used after a run is over so that
@@ -408,7 +409,15 @@ type Mutex struct {
 	waiters []chan struct{}
 }
 
+// LockYield makes every Mutex.Lock a scheduling point (harness tiers: the
+// interleavings between two critical sections of one caller become explorable;
+// too costly for whole-system runs, where only contended locks yield).
+var LockYield bool
+
 func (m *Mutex) Lock() {
+	if LockYield {
+		Yield("lock-enter")
+	}
 	m.mu.Lock()
 	if !m.locked {
 		m.locked = true
